@@ -33,7 +33,9 @@ EXPLANATION = (
     '(real column names), never from field names / attnames; '
     'R-C01.7 the optimiser tests whether a mutation was marked as removed through a hash-based container (BaseMutation.__eq__ is structural, __hash__ is identity): a list would drop a kept mutation that merely equals a removed one; '
     'R-C01.8 an alter-table item whose producer changes field.db_index puts its field where the rebuild computes new_fields from (the rebuild re-creates field indexes from that list, built from its own model); R-C01.9 the deleted-column filter of the rebuild ranges over the existing fields only, never over added_fields; '
-    'R-C01.10 quoted column identifiers come from Field.column and a REFERENCES clause names the related primary key field\'s column; R-C01.11 the two exits of the SQLite to_sql concatenate their parts in the same order; R-C01.12 the scanned database state records index/unique entries only; R-C01.13 deleting a column forgets its indexes in the state; R-C01.14 the from_/to_ naming of an automatic many-to-many table is decided by comparing lower-cased model names.')
+    'R-C01.10 quoted column identifiers come from Field.column and a REFERENCES clause names the related primary key field\'s column; R-C01.11 the two exits of the SQLite to_sql concatenate their parts in the same order; R-C01.12 the scanned database state records index/unique entries only; R-C01.13 deleting a column forgets its indexes in the state; R-C01.14 the from_/to_ naming of an automatic many-to-many table is decided by comparing lower-cased model names.'
+    ' '
+    "R-C01.15 (= R-C05.8) every reader that combines the common ('*') and the field-type-specific table of _ATTRIBUTE_DEFAULTS lets the type-specific entry win (precedence evaluated for the loop/first-hit, dict-merge, update, nested-get and ChainMap forms).")
 NOT_DECIDED = (
     'That the generated SQL executes and yields the same schema as creating '
     'the models from scratch, for any schema/sequence (needs SQLite and '
@@ -1117,7 +1119,13 @@ def r7_optimiser_identity(ctx):
     r7_identity_membership(ctx, rule_id='R-C01.7')
 
 
+def r15_defaults_precedence(ctx):
+    from .c05 import r8_defaults_precedence
+    r8_defaults_precedence(ctx, rule_id='R-C01.15')
+
+
 def run(ctx):
+    r15_defaults_precedence(ctx)
     r14_m2m_through_naming(ctx)
     r12_state_tracks_indexes_only(ctx)
     r13_deleted_column_forgotten(ctx)
